@@ -26,6 +26,9 @@ structure EulerCfg where
   /-- `integrate_to_steady_state`: when given, the run reports `NoSteadyState` unless the last of the
       `nss` steps moved every variable by less than `tol` -/
   tol : Option Rat := none
+  /-- `integrate_to_steady_state` RAISES (an exception of the right-hand side escaping the integrator) iff
+      `sum(y0) + 3*sum(rhs(0, y0))` is one of these keys -/
+  raiseKeys : List Rat := []
 deriving Inhabited
 
 structure Integ where
@@ -105,13 +108,30 @@ def ssFinish (cfg : EulerCfg) (c : Content) (prev last : Rat × List Rat) :
     | .ok p => .ok (c, some [{ rows := [last], pars := p }])
   else .ok (c, none)
 
-def ssRun (cfg : EulerCfg) (c : Content) : Except Err (Content × Option (List Seg)) := do
+def ssRunCore (cfg : EulerCfg) (c : Content) : Except Err (Content × Option (List Seg)) := do
   let ig ← simInit cfg c
   if ig.fail then pure (c, none)
   else
     let prev ← eulerSteps c cfg.h (cfg.nss - 1) 0 ig.y0orig
     let last ← lastStep c cfg.h cfg.nss prev
     ssFinish cfg c prev last
+
+/-- the toy integrator's injected exception: decided from the same key as the injected failure -/
+def raisesAt (cfg : EulerCfg) (c : Content) : Except Err Bool := do
+  let cache ← createCache c
+  let y0 := cache.init.map (·.2)
+  let d0 ← callRhs c 0 y0
+  pure (cfg.raiseKeys.contains (sumRat y0 + 3 * sumRat d0))
+
+/-- `Simulator(model).simulate_to_steady_state()`: the constructor first, then the integrator, which may raise -/
+def ssRun (cfg : EulerCfg) (c : Content) : Except Err (Content × Option (List Seg)) :=
+  match simInit cfg c with
+  | .error e => .error e
+  | .ok _ =>
+    match raisesAt cfg c with
+    | .error e => .error e
+    | .ok true => .error (.valueError "integrator raised")
+    | .ok false => ssRunCore cfg c
 
 def ssWorker (cfg : EulerCfg) : Worker := { run := ssRun cfg, dfltIndex := [0] }
 
